@@ -29,8 +29,8 @@ def sh(cmd, cwd=None):
     return subprocess.run(cmd, shell=True, cwd=cwd, env=env, stdout=subprocess.PIPE, stderr=subprocess.STDOUT, text=True)
 
 def worker(i):
-    wt = f'/tmp/wt/mx{i}'
-    scratch = f'/tmp/mx_scratch_{i}'
+    wt = f'/tmp/wt/mx{os.getpid()}_{i}'
+    scratch = f'/tmp/mx_scratch_{os.getpid()}_{i}'
     os.makedirs(scratch, exist_ok=True)
     sh(f'cp {V}/known_findings.json {scratch}/; ln -sfn {V}/engine {scratch}/engine')
     if not os.path.isdir(wt):
